@@ -23,7 +23,8 @@ class WbDecWorld(World):
                        "requesting initiator (seeded byzantine agent)")
     fault_kinds = ("byzantine_request", "garbage_dat_r_unselected", "multi_response",
                    "err_response", "rty_response", "stall_response", "nobody_selected_with_cyc",
-                   "stb_without_cyc", "rejected_re_add")
+                   "stb_without_cyc", "rejected_re_add", "memory_map_assigned_through_setter",
+                   "second_instance_in_process", "queried_or_elaborated_while_being_populated")
     assumptions = (
         "Amaranth's Python RTL simulator executes the elaborated netlist faithfully",
         "subordinates respond only while they see cyc and stb (as the property assumes)",
@@ -53,7 +54,7 @@ class WbDecWorld(World):
                 saw = rng.range(gb, max(gb, mmaw - 1))
             else:
                 sdw, sg = dw, g
-                saw = rng.range(0, max(0, aw - 1))
+                saw = rng.range(0, max(0, aw - 1)) if not rng.chance(0.06) else aw
             smaw = max(1, saw + (0 if sparse else gb))
             sf = rng.subset([f for f in FEATS if f in feats or f in ("lock", "cti", "bte")])
             if rng.chance(0.03):
@@ -66,7 +67,10 @@ class WbDecWorld(World):
                          "align_to": rng.range(0, 4) if rng.chance(0.15) else None,
                          "readd": int(rng.chance(0.08))})
         return {"aw": aw, "dw": dw, "g": g, "feats": sorted(feats), "al": al, "subs": subs,
-                "feats_as": rng.choice(["str", "str", "enum"])}
+                "feats_as": rng.choice(["str", "str", "enum"]),
+                "own_map": int(rng.chance(0.08)), "twin_decoder": int(rng.chance(0.1)),
+                "mid": rng.below(3) if rng.chance(0.12) else None,
+                "mid_how": rng.choice(["elab", "patterns"])}
 
     def gen_ops(self, rng, config, prop):
         ops = []
@@ -130,8 +134,24 @@ class WbDecWorld(World):
                              f"granularity={g}, features={sorted(feats)}, alignment={config['al']})",
                              wishbone.Decoder, addr_width=aw, data_width=dw, granularity=g,
                              features=spell(feats), alignment=config["al"])
+        if config.get("own_map"):
+            # rarely used public setter: the user supplies the decoder's memory map
+            dut.bus.memory_map = MemoryMap(addr_width=max(1, aw + gb), data_width=g,
+                                           alignment=config["al"])
+            stats.fault("memory_map_assigned_through_setter")
+        twin = None
+        if config.get("twin_decoder"):
+            twin = wishbone.Decoder(addr_width=aw, data_width=dw, granularity=g,
+                                    features=spell(feats), alignment=config["al"])
+            stats.fault("second_instance_in_process")
         subs = []
         for i, sc in enumerate(config["subs"]):
+            if config.get("mid") is not None and i == config["mid"] + 1:
+                if config.get("mid_how") == "patterns":
+                    list(dut.bus.memory_map.window_patterns())
+                else:
+                    hw.elaborate_once(dut)
+                stats.fault("queried_or_elaborated_while_being_populated")
             try:
                 sb = wishbone.Interface(addr_width=sc["aw"], data_width=sc["dw"],
                                         granularity=sc["g"], features=spell(sc["feats"]),
@@ -151,6 +171,17 @@ class WbDecWorld(World):
                 raise Refused("dense finer-granularity window is outside C07's domain")
             subs.append({"bus": sb, "start": s, "own_end": s + (1 << smaw), "rep_end": e,
                          "sparse": sc["sparse"], "feats": set(sc["feats"]), "idx": i})
+            if twin is not None:
+                # e.g. the second port of a dual-port memory: another interface, the same map
+                sb2 = wishbone.Interface(addr_width=sc["aw"], data_width=sc["dw"],
+                                         granularity=sc["g"], features=spell(sc["feats"]),
+                                         path=(f"t{i}",))
+                sb2.memory_map = sb.memory_map
+                try:
+                    twin.add(sb2, name=sc.get("name"), sparse=sc["sparse"],
+                             **({"addr": sc["addr"]} if sc.get("addr") is not None else {}))
+                except ValueError:
+                    pass
             if sc.get("readd"):
                 try:
                     dut.add(sb, name=f"again{i}", sparse=sc["sparse"])
